@@ -111,7 +111,9 @@ func (s *session) do(idx int, op opRec, made map[string]bool) opResult {
 		r = withTimeout(func() opResult { return errRes(s.env.Reset()) })
 	case "delete":
 		p := fmt.Sprintf("/w/del%d", idx)
-		if op.V == "huge" {
+		if op.V == "emptypath" {
+			p = "" // a request field left at its zero value
+		} else if op.V == "huge" {
 			p = "/w/" + strings.Repeat("h", 40000) // the request itself exceeds one packet
 		} else if op.V != "ok" {
 			p = "/w/does-not-exist"
@@ -199,8 +201,11 @@ func (s *session) doExec(idx int, op opRec, code int) opResult {
 	nonce := fmt.Sprintf("vq%d_%dz", os.Getpid(), idx)
 	var args []string
 	switch op.V {
-	case "run":
-		args = []string{"/probe/cprobe", nonce, fmt.Sprintf("exit:%d", code)}
+	case "run", "fdexec":
+		// exit 99 if an environment variable of an EARLIER request is still there
+		args = []string{"/probe/cprobe", nonce, fmt.Sprintf("envexit:VQMARK:99:%d", code)}
+	case "envrun":
+		args = []string{"/probe/cprobe", nonce, fmt.Sprintf("envexit:VQMARK:%d:98", code)}
 	case "runslow":
 		args = []string{"/probe/cprobe", nonce, "sleep:30", fmt.Sprintf("exit:%d", code)}
 	case "sleep":
@@ -233,6 +238,16 @@ func (s *session) doExec(idx int, op opRec, code int) opResult {
 		Env:           []string{"PATH=/usr/bin:/bin"},
 		Files:         nullFiles(),
 		SyncAfterExec: op.SA,
+	}
+	if op.V == "envrun" {
+		p.Env = append(p.Env, "VQMARK=1")
+	}
+	if op.V == "fdexec" {
+		// executable passed as a descriptor (fexecve); Args[0] must still name something lookPath accepts
+		if f, err := os.Open(s.probeDir + "/cprobe"); err == nil {
+			defer f.Close()
+			p.ExecFile = f.Fd()
+		}
 	}
 	switch op.CB {
 	case "ok":
